@@ -672,6 +672,17 @@ func (fc *FnCtx) chanInv(st *State, chv ssa.Value, v SV, asObligation bool, pos 
 
 func (fc *FnCtx) send(st *State, ch ssa.Value, v SV, pos token.Pos) {
 	fc.chanInv(st, ch, v, true, pos, "send")
+	// A send outside a `select` blocks until it is received (or buffered): nothing lets the
+	// goroutine escape when the session ends meanwhile. Every such send must be declared (and
+	// justified) in the contract of the unit it is executed in: `plainsends N why`.
+	root := fc.unitCtx()
+	k := root.nPlainSends
+	root.nPlainSends++
+	goal := "false"
+	if root.contract != nil && k < root.contract.PlainSends {
+		goal = "true"
+	}
+	fc.vc.oblige(st, "chaninv", "", fmt.Sprintf("send #%d on %s outside a select (blocks without escape): declared by `plainsends` in the contract of %s", k, fc.chanField(ch), root.name), fc.e.pos(pos), goal)
 }
 
 // neverClosed: no close() in the whole package is applied to a channel loaded
